@@ -267,16 +267,35 @@ func xmlAddKeyElements(s Entry, parent *etree.Element) {
 	parentSchema, levelsUp := s.GetFirstAncestorWithSchema()
 	// from the parent we get the keys as slice
 	schemaKeys := parentSchema.GetSchemaKeys()
-	var treeElem Entry = s
-	// the keys do match the levels up in the tree in reverse order
-	// hence we init i with levelUp and count down
-	for i := levelsUp - 1; i >= 0; i-- {
+	keyValues := keyLevelValues(s, schemaKeys, levelsUp)
+	// the key elements come first, in the order of the key statement
+	for idx, k := range schemaKeys {
+		v, exists := keyValues[k]
 		// skip if the element already exists
-		existingElem := parent.SelectElement(schemaKeys[i])
-		if existingElem == nil {
-			// and finally we create the patheleme key attributes
-			parent.CreateElement(schemaKeys[i]).SetText(treeElem.PathName())
-			treeElem = treeElem.GetParent()
+		if !exists || parent.SelectElement(k) != nil {
+			continue
 		}
+		// and finally we create the patheleme key attributes
+		keyElem := etree.NewElement(k)
+		keyElem.SetText(v)
+		parent.InsertChildAt(idx, keyElem)
 	}
+}
+
+// keyLevelValues returns the key name -> key value mapping for s, being a key level entry, and the key levels above it.
+// The key levels are stored in the tree sorted by the key names (see utils.ToStrings()),
+// not in the order of the key statement. levelsUp is the number of key levels up to the list entry.
+func keyLevelValues(s Entry, schemaKeys []string, levelsUp int) map[string]string {
+	sortedKeys := slices.Clone(schemaKeys)
+	slices.Sort(sortedKeys)
+	result := make(map[string]string, levelsUp)
+	var treeElem Entry = s
+	// the sorted keys do match the levels up in the tree in reverse order
+	// hence we init i with levelUp and count down
+	for i := levelsUp - 1; i >= 0 && i < len(sortedKeys) && treeElem != nil; i-- {
+		result[sortedKeys[i]] = treeElem.PathName()
+		// every key is a level in the tree
+		treeElem = treeElem.GetParent()
+	}
+	return result
 }
